@@ -13,11 +13,51 @@ import (
 )
 
 type sval struct {
-	K   byte // 's' string, 'i' int/byte/rune, 'b' bool, 'e' error (B = is nil), 't' tuple
+	K   byte // 's' string, 'i' int/byte/rune, 'f' float64, 'b' bool, 'e' error (B = is nil), 't' tuple
 	S   string
 	I   int64
+	F   float64
 	B   bool
 	Tup []sval
+}
+
+// wrapInt: v as a value of the integer type t (two's complement wrap-around of the sized types; int/uint by the platform size when a
+// context is at hand, 64 bits otherwise).
+func (e *strEnv) wrapInt(v int64, t types.Type) int64 {
+	if t == nil {
+		return v
+	}
+	b, ok := t.Underlying().(*types.Basic)
+	if !ok {
+		return v
+	}
+	bits := 64
+	if e.ctx != nil {
+		bits = int(e.ctx.intSize()) * 8
+	}
+	switch b.Kind() {
+	case types.Uint8:
+		return int64(uint8(v))
+	case types.Uint16:
+		return int64(uint16(v))
+	case types.Uint32:
+		return int64(uint32(v))
+	case types.Int8:
+		return int64(int8(v))
+	case types.Int16:
+		return int64(int16(v))
+	case types.Int32:
+		return int64(int32(v))
+	case types.Int:
+		if bits == 32 {
+			return int64(int32(v))
+		}
+	case types.Uint, types.Uintptr:
+		if bits == 32 {
+			return int64(uint32(v))
+		}
+	}
+	return v
 }
 
 type strEnv struct {
@@ -388,6 +428,9 @@ func (e *strEnv) val(t Term) (sval, bool) {
 			return sval{K: 'i', I: i}, true
 		case constant.Bool:
 			return sval{K: 'b', B: constant.BoolVal(x.Val)}, true
+		case constant.Float:
+			f, _ := constant.Float64Val(x.Val)
+			return sval{K: 'f', F: f}, true
 		}
 	case TNil:
 		return sval{K: 'e', B: true}, true
@@ -399,6 +442,11 @@ func (e *strEnv) val(t Term) (sval, bool) {
 		if b, isB := x.To.Underlying().(*types.Basic); isB {
 			switch {
 			case b.Info()&types.IsInteger != 0 && v.K == 'i':
+				v.I = e.wrapInt(v.I, x.To)
+				return v, true
+			case b.Info()&types.IsFloat != 0 && v.K == 'i':
+				return sval{K: 'f', F: float64(v.I)}, true
+			case b.Info()&types.IsFloat != 0 && v.K == 'f':
 				return v, true
 			case b.Info()&types.IsString != 0 && v.K == 'i':
 				return sval{K: 's', S: string(rune(v.I))}, true
@@ -565,14 +613,46 @@ func (e *strEnv) val(t Term) (sval, bool) {
 				return sval{K: 'b', B: a.S < b.S}, true
 			}
 		}
+		if a.K == 'f' && b.K == 'f' {
+			switch x.Op {
+			case token.EQL:
+				return sval{K: 'b', B: a.F == b.F}, true
+			case token.NEQ:
+				return sval{K: 'b', B: a.F != b.F}, true
+			case token.LSS:
+				return sval{K: 'b', B: a.F < b.F}, true
+			case token.LEQ:
+				return sval{K: 'b', B: a.F <= b.F}, true
+			case token.GTR:
+				return sval{K: 'b', B: a.F > b.F}, true
+			case token.GEQ:
+				return sval{K: 'b', B: a.F >= b.F}, true
+			}
+		}
 		if a.K == 'i' && b.K == 'i' {
+			var rt types.Type
+			if e.ctx != nil {
+				rt = e.ctx.termType(x)
+			}
 			switch x.Op {
 			case token.ADD:
-				return sval{K: 'i', I: a.I + b.I}, true
+				return sval{K: 'i', I: e.wrapInt(a.I+b.I, rt)}, true
 			case token.SUB:
-				return sval{K: 'i', I: a.I - b.I}, true
+				return sval{K: 'i', I: e.wrapInt(a.I-b.I, rt)}, true
 			case token.MUL:
-				return sval{K: 'i', I: a.I * b.I}, true
+				return sval{K: 'i', I: e.wrapInt(a.I*b.I, rt)}, true
+			case token.QUO:
+				if b.I == 0 {
+					e.panic = "integer divide by zero"
+					return sval{}, false
+				}
+				return sval{K: 'i', I: e.wrapInt(a.I/b.I, rt)}, true
+			case token.REM:
+				if b.I == 0 {
+					e.panic = "integer divide by zero"
+					return sval{}, false
+				}
+				return sval{K: 'i', I: a.I % b.I}, true
 			case token.EQL:
 				return sval{K: 'b', B: a.I == b.I}, true
 			case token.NEQ:
@@ -598,6 +678,9 @@ func (e *strEnv) val(t Term) (sval, bool) {
 	case TCall:
 		if x.Fun == nil || x.Fun.Pkg() == nil {
 			break
+		}
+		if fn := x.Fun.FullName(); fn == "fmt.Errorf" || fn == "errors.New" {
+			return sval{K: 'e', B: false}, true // a freshly made error: not nil, whatever its text
 		}
 		var args []sval
 		for _, a := range x.Args {
@@ -700,6 +783,16 @@ func (e *strEnv) val(t Term) (sval, bool) {
 				v, err := strconv.ParseInt(args[0].S, int(args[1].I), int(args[2].I))
 				return sval{K: 't', Tup: []sval{{K: 'i', I: v}, {K: 'e', B: err == nil}}}, true
 			}
+		case "strconv.ParseFloat":
+			if isS(0) && isI(1) {
+				v, err := strconv.ParseFloat(args[0].S, int(args[1].I))
+				return sval{K: 't', Tup: []sval{{K: 'f', F: v}, {K: 'e', B: err == nil}}}, true
+			}
+		case "strconv.ParseBool":
+			if isS(0) {
+				v, err := strconv.ParseBool(args[0].S)
+				return sval{K: 't', Tup: []sval{Bv(v), {K: 'e', B: err == nil}}}, true
+			}
 		case "strconv.ParseUint":
 			if isS(0) && isI(1) && isI(2) {
 				v, err := strconv.ParseUint(args[0].S, int(args[1].I), int(args[2].I))
@@ -759,7 +852,7 @@ func (c *Ctx) foldLoopExit(l *LoopRec, hook func(Term) (sval, bool), limit int, 
 	}
 	state := map[types.Object]sval{}
 	for o, t := range l.Init {
-		e := &strEnv{hook: hook}
+		e := &strEnv{hook: hook, ctx: c}
 		v, ok := e.val(t)
 		if !ok {
 			return nil, "loop initialiser cannot be folded: " + e.fail
@@ -784,7 +877,7 @@ func (c *Ctx) foldLoopExit(l *LoopRec, hook func(Term) (sval, bool), limit int, 
 	}
 	for it := 0; it < limit; it++ {
 		cur = mem
-		e := &strEnv{hook: h}
+		e := &strEnv{hook: h, ctx: c}
 		cv, ok := e.val(l.CondT)
 		if e.panic != "" {
 			return nil, e.panic
@@ -812,7 +905,7 @@ func (c *Ctx) foldLoopExit(l *LoopRec, hook func(Term) (sval, bool), limit int, 
 					if !isVar || cur == nil {
 						return nil, "effect inside a folded loop"
 					}
-					e2 := &strEnv{hook: h}
+					e2 := &strEnv{hook: h, ctx: c}
 					v, ok := e2.val(st.RHS)
 					if e2.panic != "" {
 						return nil, e2.panic
@@ -822,7 +915,7 @@ func (c *Ctx) foldLoopExit(l *LoopRec, hook func(Term) (sval, bool), limit int, 
 					}
 					cur[key(tv)] = v
 				case "cond":
-					e2 := &strEnv{hook: h}
+					e2 := &strEnv{hook: h, ctx: c}
 					v, ok := e2.val(st.Cond.T)
 					if e2.panic != "" {
 						return nil, e2.panic
@@ -867,7 +960,7 @@ func (c *Ctx) foldLoopExit(l *LoopRec, hook func(Term) (sval, bool), limit int, 
 		next := map[types.Object]sval{}
 		for o := range state {
 			if t, ok := sel.Env[o]; ok {
-				e3 := &strEnv{hook: h}
+				e3 := &strEnv{hook: h, ctx: c}
 				v, ok := e3.val(t)
 				if !ok {
 					return nil, "loop variable update cannot be folded: " + e3.fail
